@@ -364,12 +364,64 @@ class Checker:
                 rep.ob('R12.4', fi, '%s: result frame' % meth, fr in ('self.frame_applied', 'self.frame_applied.copy()'),
                        'result is labelled with frame %s, not the left operand\'s' % fr, line=ln)
         rep.floor('R12.4', 'frame reconciliation sites', n, 6)
+        self.r126(meths)
+
+    def r126(self, meths):
+        """A 6-element array operand is combined as a 6x1 column: on the path taken for `isinstance(other, np.ndarray)` with
+        len(other) == 6 the payload is combined with other.reshape((6, 1)) - the raw (6,) array would broadcast against the 6x1 payload
+        into a 6x6 matrix, and (a + b) - b = a fails for array b."""
+        from ..engine import peval as _pe
+        from ..engine.paths import paths_of
+        rep = self.rep
+        rep.rule('R12.6', '6-array operands of + / - (either side) are shaped as a column before they meet the 6x1 payload')
+        n = 0
+        for meth in ('__add__', '__sub__', '__rsub__'):
+            fi = self.screw.methods.get(meth)
+            if fi is None:
+                continue
+            other = fi.params[1]
+            flat = _pe.flatten(meths, fi.node, depth=2, stop=('changeFrame', 'copy'), impure=True)
+            ps = paths_of(flat, fi.params, consts={'isinstance(%s,Screw)' % other: False, 'isinstance(%s,np.ndarray)' % other: True,
+                                                   'isinstance(%s,numpy.ndarray)' % other: True, 'len(%s)' % other: 6})
+            col = ('%s.reshape((6,1))' % other, '%s.reshape(6,1)' % other, 'np.reshape(%s,(6,1))' % other, '%s[:,None]' % other,
+                   '%s.reshape((-1,1))' % other, '%s.reshape(-1,1)' % other)
+            for pth in ps:
+                if pth.ret in (None, '<none>'):
+                    continue
+                try:
+                    rt = ast.parse(pth.ret_src, mode='eval').body
+                except SyntaxError:
+                    continue
+                uses = [x for x in ast.walk(rt) if isinstance(x, ast.Name) and x.id == other]
+                if not uses:
+                    continue
+                n += 1
+                # every occurrence of the operand inside the returned expression is inside one of the column forms
+                txt = norm_text(rt)
+                rest = txt
+                for c_ in col:
+                    rest = rest.replace(c_, 'COL__')
+                raw = other in {m.id for m in ast.walk(ast.parse(rest, mode='eval')) if isinstance(m, ast.Name)} if _parses(rest) else True
+                wrapped = isinstance(rt, ast.Call) and isinstance(rt.func, ast.Name) and rt.func.id in ('Screw', 'Wrench')
+                rep.ob('R12.6', fi, '%s: 6-array operand combined as a column, result wrapped' % meth, (not raw) and wrapped,
+                       'for a 6-element array operand %s returns %s: the array is %s' % (
+                           meth, txt[:90], 'combined without .reshape((6, 1)) (6x1 against (6,) broadcasts to 6x6)' if raw else 'not wrapped back into a Screw'),
+                       line=pth.ret_line)
+        rep.floor('R12.6', 'array-operand return paths', n, 3)
         wc = self.wrench.methods.get('_wrenchConverter')
         if wc is not None:
             for r in [x for x in walk_own(wc.node) if isinstance(x, ast.Return) and isinstance(x.value, ast.Call) and src(x.value.func) == 'Wrench']:
                 # Wrench(screw, frame): second positional parameter of Wrench.__init__ is position_applied - frame comes from the screw
                 rep.ob('R12.4', wc, src(r.value), src(r.value.args[0]) == wc.params[1],
                        'converter does not wrap the computed screw', line=r.lineno)
+
+
+def _parses(text):
+    try:
+        ast.parse(text, mode='eval')
+        return True
+    except SyntaxError:
+        return False
 
 
 def check(model, rep):
